@@ -45,7 +45,7 @@ def harnesses():
                     tier="quick" if (b == 16 and tn != "numeric") else "thorough", timeout=3600, domain="FULL value; the round trip is asserted whenever to_sql succeeds",
                     covers_required=["encodes"])
     # the 55/56-byte short/long string boundary of RLP needs a width of at least 441 bits (seeded change C16-4)
-    for b in []:   # [448]: written, not probed within the session (FULL 448-bit value through Vec-based encoders) - not registered
+    for b in []:   # [448]: probed - every instance exceeds the 14 GB limit within 150 s (59-byte buffers, unwinding 61) - not registered
         l, nb = nlimbs(b), nbytes(b)
         no = nb + 3
         for crate in ("alloy_rlp", "fastrlp_03", "fastrlp_04"):
